@@ -24,6 +24,27 @@ fn inside(p: SInt, b: &Band) -> Cond {
 
 /// OpenPosition under a symbolic limit. `pattern`: 0 = first trade of the block, 1 = after another
 /// trader moved the price inside the band in the same block, 2 = opposite-side open (reduce/reverse)
+thread_local! {
+    /// number of blocks WITHOUT any trade between the reference block and the block under test
+    static QUIET: std::cell::Cell<u64> = std::cell::Cell::new(0);
+}
+
+/// the scenario with `n` trade-free blocks before the block under test (the band is still centred
+/// on the price at the end of the last block that traded)
+fn quiet(n: u64, f: impl Fn()) -> impl Fn() {
+    move || {
+        QUIET.with(|q| q.set(n));
+        f();
+        QUIET.with(|q| q.set(0));
+    }
+}
+
+fn quiet_blocks(r: &mut Run) {
+    for _ in 0..QUIET.with(|q| q.get()) {
+        r.w.next_block(15);
+    }
+}
+
 fn open_in_band(side: Side, pattern: u8, seed: u64) -> impl Fn() {
     open_in_band_t(side, pattern, seed, false)
 }
@@ -51,6 +72,7 @@ fn open_in_band_t(side: Side, pattern: u8, seed: u64, subsecond: bool) -> impl F
         } else {
             r.w.next_block(15);
         }
+        quiet_blocks(&mut r);
         if pattern == 1 || pattern == 3 {
             // drift inside the band within the block (may be rejected on some paths: fine);
             // pattern 3: the drift goes AGAINST the opener, whose trade then crosses the reference price
@@ -144,6 +166,7 @@ fn close_in_band_l(side: Side, drift: bool, seed: u64, sym_lim: bool) -> impl Fn
         assert!(r.w.update_vamm(0, None, None, None, None, Some(f), None).ok);
         let last = r.w.spot_price(0).unwrap();
         r.w.next_block(15);
+        quiet_blocks(&mut r);
         if drift {
             let md = amount("drift", d, false, 2);
             r.step(Op::Open { who: EVE, side: opp(&side), margin: md, lev: Uint128::new(d), limit: Uint128::zero(), funds: None });
@@ -213,6 +236,11 @@ pub fn scenarios(seed: u64) -> Vec<Scenario> {
         for (aside, an) in [(Side::Buy, "buy"), (Side::Sell, "sell")] {
             v.push(sc("C15", Tier::Quick, &format!("c15.open.after-close-left-band.{}.{}", sn, an), "a whole close of a seeded position under a symbolic limit leaves the band; a later open in the same block (symbolic size, either side) must be rejected", 400, 120, open_after_close_left_band(side.clone(), aside, seed)));
         }
+        let dq = "as the scenario of the same name with one / four blocks without any trade before the block under test";
+        v.push(sc("C15", Tier::Quick, &format!("c15.open.plain.quiet1.{}", sn), dq, 500, 150, quiet(1, open_in_band(side.clone(), 0, seed))));
+        v.push(sc("C15", Tier::Quick, &format!("c15.open.reverse.quiet4.{}", sn), dq, 500, 150, quiet(4, open_in_band(side.clone(), 2, seed))));
+        v.push(sc("C15", Tier::Quick, &format!("c15.close.quiet1.{}", sn), dq, 500, 150, quiet(1, close_in_band(side.clone(), false, seed))));
+        v.push(sc("C15", Tier::Thorough, &format!("c15.close.afterdrift.quiet4.{}", sn), dq, 800, 150, quiet(4, close_in_band(side.clone(), true, seed))));
         v.push(sc("C15", Tier::Quick, &format!("c15.close.{}", sn), "position size, fluctuation limit symbolic; partial-close fraction 25%; whole close iff the price after a whole close (vAMM quote) stays inside the band", 500, 150, close_in_band(side.clone(), false, seed)));
         v.push(sc("C15", Tier::Quick, &format!("c15.close.{}.lim", sn), "as c15.close with a symbolic quote limit on the ClosePosition", 800, 150, close_in_band_l(side.clone(), false, seed, true)));
         v.push(sc("C15", Tier::Quick, &format!("c15.close.afterdrift.{}", sn), "as c15.close after another trader moved the price (toward the close's own direction) inside the band in the same block", 800, 150, close_in_band(side.clone(), true, seed)));
